@@ -58,12 +58,44 @@ def run_programs(fam, header, progs, cases, configs, workdir, model_exe, nshards
             jobs.append(("%s%d" % (name, sh_), tu_source(header, fam, ok, prelude(ok) if callable(prelude) else prelude), cfg))
             jobmeta.append((sh_, cfg, set(p.id for p in ok)))
     built = compile_many(jobs)
-    exes = {}
+    exes = {}          # (shard, cfg) -> list of (exe, ids)
+    pending = []       # failed translation units to bisect: (shard, cfg, [programs])
+    progs_by_id = {p.id: p for p in progs}
     for (sh_, cfg, ids), (exe, log) in zip(jobmeta, built):
         if exe is None:
             if not log.startswith("COMPILER-CRASH"):
                 build_fail.append((sh_, cfg, log))
-        exes[(sh_, cfg)] = (exe, ids)
+                pending.append((sh_, cfg, sorted((progs_by_id[i] for i in ids), key=lambda p: p.id)))
+            exes[(sh_, cfg)] = []
+        else:
+            exes[(sh_, cfg)] = [(exe, ids)]
+    # salvage: when a translation unit stops compiling, bisect it (down to single programs, at most two configurations and 500 extra builds) so that the
+    # programs that still compile are run and can yield a concrete failing input
+    keep_cfgs = []
+    for (_, cfg, _) in pending:
+        if cfg not in keep_cfgs:
+            keep_cfgs.append(cfg)
+    pending = [x for x in pending if x[1] in keep_cfgs[:2]]
+    budget = 500
+    for level in range(6):
+        if not pending or budget <= 0:
+            break
+        pending = pending[: max(1, budget // 2)]
+        budget -= 2 * len(pending)
+        sjobs, smeta = [], []
+        for (sh_, cfg, plist) in pending:
+            if len(plist) < 2:
+                continue
+            mid = len(plist) // 2
+            for part in (plist[:mid], plist[mid:]):
+                sjobs.append(("%s%ds" % (name, sh_), tu_source(header, fam, part, prelude(part) if callable(prelude) else prelude), cfg))
+                smeta.append((sh_, cfg, part))
+        pending = []
+        for (sh_, cfg, part), (exe, log) in zip(smeta, compile_many(sjobs)):
+            if exe is not None:
+                exes[(sh_, cfg)].append((exe, set(p.id for p in part)))
+            elif not log.startswith("COMPILER-CRASH"):
+                pending.append((sh_, cfg, part))
     for sh_, cs in sorted(by_shard.items()):
         lines = [fam + " " + " ".join(str(x) for x in toks) for (_, toks, _) in cs]
         cf = os.path.join(workdir, "cases-%s-%d.txt" % (name, sh_))
@@ -77,33 +109,27 @@ def run_programs(fam, header, progs, cases, configs, workdir, model_exe, nshards
             recs.append({"prog": prog, "toks": toks, "meta": meta, "model": md, "model_line": ml, "impl": {}, "impl_line": {},
                          "case_line": lines[n]})
         for cfg in configs:
-            if (sh_, cfg) not in exes:
-                for r in recs:
-                    r["impl"][cfg] = None
-                continue
-            exe, ids = exes[(sh_, cfg)]
-            if exe is None:
-                for r in recs:
-                    r["impl"][cfg] = None
-                continue
-            sel = [n for n, r in enumerate(recs) if r["prog"].id in ids]
-            outs, crashes = run_resilient(exe, [lines[n] for n in sel], workdir, "%s-%d-%s" % (name, sh_, cfg))
             for r in recs:
                 r["impl"].setdefault(cfg, None)
-            for k, n in enumerate(sel):
-                r = recs[n]
-                il = outs[k] if outs[k] is not None else ""
-                _, idd = parse_line(il)
-                if outs[k] is None:
-                    r["impl"][cfg] = None
-                elif "skip" in il.split()[2:3]:
-                    r["impl"][cfg] = None
-                else:
-                    r["impl"][cfg] = idd
-                r["impl_line"][cfg] = il
-            for k, info in crashes.items():
-                r = recs[sel[k]]
-                r["impl"][cfg] = {}
-                r.setdefault("crash", {})[cfg] = info
+            for part_no, (exe, ids) in enumerate(exes.get((sh_, cfg), [])):
+                sel = [n for n, r in enumerate(recs) if r["prog"].id in ids]
+                if not sel:
+                    continue
+                outs, crashes = run_resilient(exe, [lines[n] for n in sel], workdir, "%s-%d-%s-%d" % (name, sh_, cfg, part_no))
+                for k, n in enumerate(sel):
+                    r = recs[n]
+                    il = outs[k] if outs[k] is not None else ""
+                    _, idd = parse_line(il)
+                    if outs[k] is None:
+                        r["impl"][cfg] = None
+                    elif "skip" in il.split()[2:3]:
+                        r["impl"][cfg] = None
+                    else:
+                        r["impl"][cfg] = idd
+                    r["impl_line"][cfg] = il
+                for k, info in crashes.items():
+                    r = recs[sel[k]]
+                    r["impl"][cfg] = {}
+                    r.setdefault("crash", {})[cfg] = info
         records += recs
     return records, build_fail
